@@ -1,10 +1,11 @@
 """C18: path hardening never lets a protected directory prefix through.
 
 Pipeline (spec/Paths.tla is the oracle, spec/PathsTrace.tla the trace monitor):
-  1. per scenario (= one process environment: $HOME, working directory, testing/production mode)
-     TLC explores every history of Add/Remove/Reset of mappings and of the two privacy flags
-     within the bounds, checks the property invariants over ALL input paths of the scenario in
-     every reachable state, and dumps the labelled state graph;
+  1. per scenario (= one process environment: $HOME, working directory at start, testing/production
+     mode) TLC explores every history of Add/Remove/Reset of mappings (absolute AND relative
+     directories), of the two privacy flags and of changes of the working directory (Chdir) within
+     the bounds, checks the property invariants over ALL input paths of the scenario (absolute and
+     relative) in every reachable state, and dumps the labelled state graph;
   2. witness runs: each named deviation of the pinned code must make TLC FAIL an invariant
      (the invariants are not vacuous, the deviations really contradict the property);
   3. an edge cover of every dumped graph (every transition at least once, all inputs queried
@@ -29,12 +30,14 @@ from tlagen import tla
 INVARIANTS = ["TypeOK", "Total", "NoProtectedPrefix", "ShortFormUsed", "OutsideUnchanged", "OrderOnlyIfNested",
               "RegexpGated"]
 # deviation -> the invariant TLC must report as violated when only that deviation is enabled
-WITNESS = {"NoBoundary": "OutsideUnchanged", "ReplaceAll": "ShortFormUsed", "RawTable": "NoProtectedPrefix"}
+WITNESS = {"NoBoundary": "OutsideUnchanged", "ReplaceAll": "ShortFormUsed", "RawTable": "NoProtectedPrefix",
+           "StopRel": "NoProtectedPrefix", "StaleWd": "OutsideUnchanged"}
 # class printed by the trace spec -> finding key
 KEYS = {"empty-prefix": "empty-home-prefix", "root-prefix": "root-dir-prefix",
         "home-exposed": "home-exposed-after-unregister", "prefix-without-boundary": "prefix-without-boundary",
         "inner-occurrence-rewritten": "inner-occurrence-rewritten", "panic": "panic", "length": "SafetyFiles:length",
-        "privacy-flag-off-by-default": "privacy-flag-off-by-default"}
+        "privacy-flag-off-by-default": "privacy-flag-off-by-default",
+        "stale-working-directory": "stale-working-directory", "relative-path-not-hardened": "relative-path-not-hardened"}
 VIAS = ["Safety", "SafetyFiles", "caller-json", "caller-logfmt", "caller-color"]
 
 
@@ -56,6 +59,11 @@ HOME, CWD = "/vhome/user", "/usr/lib"
 
 STD_MAPS = [("/srv/secret", "$S"), ("/vhome/user/work", "~work"), ("/srv/sec", "$C"),
             ("/srv/secret/app", "$A"), ("/srv/secret", "$T"), ("/usr/lib/go", "$G")]
+# relative directories (the file names of a -trimpath build are relative): a nested pair and one that
+# shares only a string prefix with the first
+REL_MAPS = [("build/secretproj", "~sp"), ("build/secretproj/cmd", "~cmd"), ("build/sec", "%b")]
+# directories the process changes to after start (they must exist: the worker really calls os.Chdir)
+STD_DIRS = ["/usr", "/etc", CWD, "/", "/usr/share"]
 STD_RXS = [VOLRX, dict(anch=True, lit=B("/srv/"), wild=True, repl=B("@")),
            dict(anch=False, lit=B("/secret/"), wild=False, repl=B("/S/"))]
 STD_INPUTS = ["/vhome/user/a.go", "/vhome/userx/a.go", "/vhome/user/p/vhome/user/q.go", "/vhome/user",
@@ -63,10 +71,20 @@ STD_INPUTS = ["/vhome/user/a.go", "/vhome/userx/a.go", "/vhome/user/p/vhome/user
               "/srv/secret/k/srv/secret/m.go", "/srv/sec/z.go", "/usr/lib/go/x.go", "/usr/lib64/x.go", "/usr/lib",
               "/usr/x.go", "/opt/other/z.go", "rel/a.go", "", "/", "/Volumes/vWork/work/a.go", "/Volumes/solo",
               "/x/Volumes/v/w/a.go", "/vhome/user/Volumes/v/w.go", "/opt//other/./z.go", "/usr/lib/../x.go",
-              "/vhome/user/", "vhome/user/a.go", "/mnt/vhome/user/a.go", "/srv/Secret/app/m.go"]
+              "/vhome/user/", "vhome/user/a.go", "/mnt/vhome/user/a.go", "/srv/Secret/app/m.go",
+              # relative paths: under / equal to / only string-prefixed by / containing a relative directory, outside
+              "build/secretproj/cmd/main.go", "build/secretproj/x.go", "build/secretproj", "build/secretprojx/main.go",
+              "build/secretproj/k/build/secretproj/m.go", "x/build/secretproj/a.go", "build/other/a.go", "./a.go", "../x/y.go",
+              # the absolute twin of a relative directory; paths near the directories the process changes to
+              "/build/secretproj/a.go", "/usr/share/doc/x.go", "/etc/x.go", "/x.go"]
+# the universe of the scenario that concentrates on relative paths and on the working directory
+RELWD_INPUTS = ["/vhome/user/a.go", "/usr/lib/go/x.go", "/usr/lib64/x.go", "/usr/lib", "/usr/x.go", "/opt/other/z.go", "rel/a.go",
+                "", "/", "/usr/lib/../x.go", "vhome/user/a.go"] + STD_INPUTS[-13:]
 STD_SITES = ["homeA", "homeX", "homeInner", "homeWork", "homeWorkshop", "secApp", "secX", "secInner", "cwdIn", "cwdX",
              "cwdUp", "other", "vol", "volInner", "homeVol"]
 RX_ASSUMES = ["HasCovered", "HasShorterRel", "HasRxMatch"]
+RELWD_ASSUMES = ["HasRelCovered", "HasRelTwin", "HasRelStringPrefix", "HasRelOutside", "HasWdSensitive", "HasShorterRel",
+                 "WitnessStopRel", "WitnessStaleWd"]
 ALL_ASSUMES = ["HasCovered", "HasStringPrefix", "HasInner", "HasNested", "HasShorterRel", "HasRxMatch",
                "WitnessNoBoundary", "WitnessReplaceAll", "WitnessRawTable", "WitnessIdeal"]
 
@@ -79,39 +97,59 @@ def scenarios(ctx):
     real_site = os.path.join(scratch, "harness-src", "fam_paths.go")
     tab_acts = ["AddMap", "RemoveMap", "ResetMap", "SetFlag"]
     rx_acts = ["AddRx", "RemoveRx", "ResetRx", "SetFlag", "ResetMap"]
+    relwd_acts = ["AddMap", "RemoveMap", "SetFlag", "Chdir"]
     nmaps = 2 if q else 5
     std = dict(home=HOME, cwd=CWD, maps=STD_MAPS[:nmaps], rxs=STD_RXS, inputs=STD_INPUTS, sites=STD_SITES,
-               assumes=ALL_ASSUMES)
+               assumes=ALL_ASSUMES, dirs=STD_DIRS)
+    # the two dimensions "relative directories / relative paths" and "the working directory changes after
+    # start": a nested pair of relative directories added and removed, the preset cwd entry removed, chdir
+    # to every directory of `dirs` (the start directory among them: leaving and coming back)
+    relwd = dict(name="relwd", acts=relwd_acts, maxtab=4, maxrx=1, maps=REL_MAPS[:2], keys=[CWD, REL_MAPS[0][0]],
+                 dirs=STD_DIRS[:3] if q else STD_DIRS, rxs=[VOLRX], assumes=RELWD_ASSUMES)
     res = []
     res.append(dict(std, name="std-test", testing=True, rand=(30, 12) if q else (400, 24),
                     mcs=[dict(name="tab", acts=tab_acts, maxtab=5 if q else 8, maxrx=1, maps=std["maps"], rxs=[VOLRX])] +
-                        ([] if q else [dict(name="rx", acts=rx_acts, maxtab=8, maxrx=3, maps=[], rxs=STD_RXS, assumes=RX_ASSUMES)])))
+                        ([] if q else [dict(name="rx", acts=rx_acts, maxtab=8, maxrx=3, maps=[], rxs=STD_RXS, assumes=RX_ASSUMES),
+                                       dict(relwd, acts=relwd_acts + ["ResetMap"], maxtab=5, maps=REL_MAPS)])))
     res.append(dict(std, name="std-prod", testing=False, rand=(30, 12) if q else (400, 24),
                     mcs=[dict(name="rx", acts=rx_acts, maxtab=8, maxrx=2 if q else 3, maps=[], rxs=STD_RXS[1:] if q else STD_RXS,
                               assumes=RX_ASSUMES)] +
-                        ([] if q else [dict(name="tab", acts=tab_acts, maxtab=8, maxrx=1, maps=STD_MAPS[:3], rxs=[VOLRX])])))
+                        ([] if q else [dict(name="tab", acts=tab_acts, maxtab=8, maxrx=1, maps=STD_MAPS[:3] + REL_MAPS[:1], rxs=[VOLRX])])))
+    res.append(dict(std, name="std-relwd", testing=False, rand=(10, 12) if q else (200, 24), mcs=[relwd], inputs=RELWD_INPUTS,
+                    sites=["homeA", "cwdIn", "cwdX", "cwdUp", "other"]))
     small_inputs = ["/srv/secret/app/m.go", "/srv/secretx/m.go", "/opt/other/z.go", "/usr/x.go", "rel/a.go", "", "/",
-                    "/vhome/user/a.go", "/usr/lib/go/x.go", "/usr/lib64/x.go", "/Volumes/vWork/work/a.go"]
-    small_maps = [("/srv/secret", "$S")] if q else [("/srv/secret", "$S"), ("/srv/sec", "$C")]
+                    "/vhome/user/a.go", "/usr/lib/go/x.go", "/usr/lib64/x.go", "/Volumes/vWork/work/a.go",
+                    "build/secretproj/cmd/main.go", "build/secretprojx/main.go", "/build/secretproj/a.go", "/etc/x.go"]
+    small_maps = [("/srv/secret", "$S")] if q else [("/srv/secret", "$S"), ("/srv/sec", "$C"), REL_MAPS[0]]
     # $HOME unset: the library registers the empty string as the home prefix
     res.append(dict(name="nohome", home="", cwd=CWD, testing=True, maps=small_maps, rxs=[VOLRX], inputs=small_inputs,
                     sites=["secApp", "secX", "other", "cwdIn"], assumes=["HasCovered", "HasStringPrefix"],
-                    rand=(6, 8) if q else (60, 16), ascii_only=True,
-                    mcs=[dict(name="tab", acts=tab_acts, maxtab=4, maxrx=1, maps=small_maps, rxs=[VOLRX])]))
-    # working directory "/" (daemons, containers)
+                    rand=(6, 8) if q else (60, 16), ascii_only=True, dirs=["/usr", CWD],
+                    mcs=[dict(name="tab", acts=tab_acts, maxtab=4 if q else 5, maxrx=1, maps=small_maps, rxs=[VOLRX])]))
+    # working directory "/" (daemons, containers) which the process leaves later
     res.append(dict(name="rootcwd", home=HOME, cwd="/", testing=False, maps=small_maps, rxs=[VOLRX], inputs=small_inputs,
-                    sites=["secApp", "secX", "other", "cwdIn", "homeA", "homeX"], assumes=["HasCovered", "HasStringPrefix"],
-                    rand=(6, 8) if q else (60, 16),
-                    mcs=[dict(name="tab", acts=tab_acts, maxtab=4, maxrx=1, maps=small_maps, rxs=[VOLRX])]))
+                    sites=["secApp", "secX", "other", "cwdIn", "homeA", "homeX"],
+                    assumes=["HasCovered", "HasStringPrefix"],      # every absolute path lies under the cwd entry "/" here
+                    rand=(6, 8) if q else (60, 16), dirs=["/usr", "/", "/etc"],
+                    mcs=[dict(name="tab", acts=tab_acts + ["Chdir"], maxtab=4 if q else 5, maxrx=1, maps=small_maps, rxs=[VOLRX],
+                              dirs=["/usr"] if q else ["/usr", "/", "/etc"])]))
     # $HOME = the scratch directory, cwd = <scratch>/harness: the real source file of the worker
     # (<scratch>/harness-src/fam_paths.go) lies under home and shares only a string prefix with cwd;
     # a mapping for <scratch>/harness-src nests inside home
+    # the process later changes into the source directory and into the parent of the scratch directory
     sm = [(os.path.join(scratch, "harness-src"), "$H")]
+    sd = [os.path.join(scratch, "harness-src"), os.path.dirname(scratch), os.path.join(scratch, "harness")]
     res.append(dict(name="scratch", home=scratch, cwd=os.path.join(scratch, "harness"), testing=True, maps=sm, rxs=[VOLRX],
-                    inputs=[real_site, scratch + "/harness/x.go", scratch + "x/y.go", "/opt/other/z.go", scratch + "/z.go"],
-                    sites=["real", "other"], assumes=["HasCovered", "HasStringPrefix", "HasNested"],
-                    rand=(4, 8) if q else (40, 16), scratch=scratch,
-                    mcs=[dict(name="tab", acts=tab_acts, maxtab=4, maxrx=1, maps=sm, rxs=[VOLRX])]))
+                    inputs=[real_site, scratch + "/harness/x.go", scratch + "x/y.go", "/opt/other/z.go", scratch + "/z.go",
+                            "harness-src/fam_paths.go", "fam_paths.go"],
+                    sites=["real", "other"], assumes=["HasCovered", "HasStringPrefix", "HasNested", "HasWdSensitive"],
+                    rand=(4, 8) if q else (40, 16), scratch=scratch, dirs=sd,
+                    mcs=[dict(name="tab", acts=tab_acts + ["Chdir"], maxtab=4, maxrx=1, maps=sm, rxs=[VOLRX],
+                              dirs=sd[:2] if q else sd)]))
+    for sc in res:
+        for d in set(sc["dirs"] + [sc["cwd"]] + [d for mc in sc["mcs"] for d in mc.get("dirs", [])]):
+            if not os.path.isdir(d) or os.path.realpath(d) != d:
+                raise Undecided("scenario %s needs the directory %s (existing, no symbolic links) for os.Chdir" % (sc["name"], d))
     return res
 
 
@@ -120,11 +158,11 @@ def scenarios(ctx):
 def consts_of(sc, mc, devs=()):
     maps = [dict(k=B(k), v=B(v)) for k, v in mc["maps"]]
     keys = []
-    for k in [m["k"] for m in maps] + [B(sc["home"]), B(sc["cwd"])]:
+    for k in ([B(k) for k in mc["keys"]] if "keys" in mc else [m["k"] for m in maps] + [B(sc["home"]), B(sc["cwd"])]):
         if k not in keys:                 # the empty directory (HOME unset) can be removed as well
             keys.append(k)
     return dict(Home=B(sc["home"]), Cwd=B(sc["cwd"]), Testing=sc["testing"], MapSeq=maps, KeySeq=keys,
-                RxSeq=mc["rxs"], Inputs=set(tuple(B(x)) for x in sc["inputs"]), MaxTab=mc["maxtab"],
+                DirSeq=[B(d) for d in mc.get("dirs", [])], RxSeq=mc["rxs"], Inputs=set(tuple(B(x)) for x in sc["inputs"]), MaxTab=mc["maxtab"],
                 MaxRx=mc["maxrx"], Acts=set(mc["acts"]), Devs=set(devs))
 
 
@@ -151,6 +189,8 @@ def label_to_event(label, consts):
         return dict(op=name, r=consts["RxSeq"][a[0] - 1])
     if name in ("ResetMap", "ResetRx"):
         return dict(op=name)
+    if name == "Chdir":
+        return dict(op="Chdir", d=consts["DirSeq"][a[0] - 1])
     if name == "SetFlag":
         return dict(op="SetFlag", f=a[0], on=a[1])
     raise Undecided("unknown action label %r" % label)
@@ -208,6 +248,7 @@ def queries(sc, reps_sites, turn=None):
 
 
 SEGS = ["a", "ab", "abc", "b", "a.b", "c-d", "~", "x y", "src", "go"]
+REL_HEADS = ["build", "pkg", "github.com", "src", "a", "usr"]      # first segment of a random relative directory
 SHORTS = ["~", "$K", "@w", ".", "#", "~proj", "%"]
 
 
@@ -221,10 +262,22 @@ def random_behaviours(sc, rng, count, depth):
         d = base + "".join("/" + rng.choice(SEGS) for _ in range(rng.randint(0 if base else 1, 2)))
         return d or "/a"
 
+    def rreldir():
+        return rng.choice(REL_HEADS) + "".join("/" + rng.choice(SEGS) for _ in range(rng.randint(0, 2)))
+
+    def near(d):
+        """an absolute path in, next to or above directory d"""
+        up = os.path.dirname(d)
+        return rng.choice([d, d, up, up, os.path.dirname(up)]).rstrip("/") + rng.choice(["", "/" + rng.choice(SEGS)]) + "/"
+
     def rpath(dirs):
         c = rng.random()
         d = rng.choice(dirs) if dirs else "/a"
         leaf = rng.choice(["f.go", "main.go", "x", "a"])
+        if c < 0.07:
+            return near(rng.choice([wd[0], wd[0], cwd])) + leaf                       # close to the current / the start directory
+        if c < 0.10 and not d.startswith("/"):
+            return "/" + d + "/" + leaf                                               # absolute twin of a relative directory
         if c < 0.25:
             return d + "/" + leaf
         if c < 0.40:
@@ -252,17 +305,21 @@ def random_behaviours(sc, rng, count, depth):
         return rng.choice(["/", ""]) + "".join(chr(rng.randint(1, 255)) for _ in range(n))   # arbitrary bytes
 
     res = []
+    wd = [cwd]
     for _ in range(count):
         tab = {home: "~", cwd: "."}
         dirs = [d for d in (home, cwd) if d]
+        wd[0] = cwd
         rxs = [VOLRX]
         beh = []
         for _ in range(depth):
             c = rng.random()
             if c < 0.34 and len(tab) < 5:
                 d = rng.choice(dirs) if dirs and rng.random() < 0.3 else rdir()
+                if rng.random() < 0.25:
+                    d = rreldir()                                                       # relative directory
                 if rng.random() < 0.3 and dirs:
-                    d = rng.choice(dirs) + "/" + rng.choice(SEGS)                       # nested
+                    d = rng.choice(dirs).rstrip("/") + "/" + rng.choice(SEGS)           # nested
                 v = rng.choice(SHORTS)
                 tab[d] = v
                 if d not in dirs:
@@ -287,8 +344,11 @@ def random_behaviours(sc, rng, count, depth):
             elif c < 0.78:
                 rxs = []
                 beh.append(dict(op="ResetRx"))
-            elif c < 0.90:
+            elif c < 0.88:
                 beh.append(dict(op="SetFlag", f=rng.choice(["path", "regexp"]), on=rng.random() < 0.6))
+            elif c < 0.97:
+                wd[0] = rng.choice(sc["dirs"])
+                beh.append(dict(op="Chdir", d=B(wd[0])))
             else:
                 continue
             ins = [B(rpath(dirs)) for _ in range(rng.randint(3, 8))]
@@ -320,7 +380,7 @@ CHUNK = 800      # trace lines validated by one TLC process
 
 
 def validate_chunk(ctx, sc, lines, tag):
-    consts = dict(Home=B(sc["home"]), Cwd=B(sc["cwd"]), Testing=sc["testing"], MapSeq=[], KeySeq=[], RxSeq=[],
+    consts = dict(Home=B(sc["home"]), Cwd=B(sc["cwd"]), Testing=sc["testing"], MapSeq=[], KeySeq=[], DirSeq=[], RxSeq=[],
                   Inputs=set(), MaxTab=999, MaxRx=999, Acts=set(), Devs=set(), TraceFile="trace.ndjson",
                   InputSeq=[B(x) for x in sc["inputs"]])
     mod, cfg = gen("MCT", "PathsTrace", consts, ["SPECIFICATION TSpec", "INVARIANTS Done TTypeOK", "CHECK_DEADLOCK FALSE"])
@@ -466,13 +526,15 @@ def run(ctx, replay):
         return run_replay(ctx, replay)
     scs = scenarios(ctx)
     counts, nontrivial, infos = {}, set(), []
-    wmc = dict(name="w", acts=["AddMap", "RemoveMap", "ResetMap", "SetFlag"], maxtab=5, maxrx=1, maps=STD_MAPS[:3], rxs=[VOLRX])
+    wmc = dict(name="w", acts=["AddMap", "RemoveMap", "ResetMap", "SetFlag", "Chdir"], maxtab=6, maxrx=1,
+               maps=STD_MAPS[:3] + REL_MAPS[:1], dirs=STD_DIRS[:2], rxs=[VOLRX])
     with concurrent.futures.ThreadPoolExecutor(max_workers=10) as tlc_pool, \
-            concurrent.futures.ThreadPoolExecutor(max_workers=5) as sc_pool:
+            concurrent.futures.ThreadPoolExecutor(max_workers=8) as sc_pool:
         wf = [] if ctx.quick() else [tlc_pool.submit(witness, ctx, scs[0], wmc, d) for d in sorted(WITNESS)]
         mf = [[tlc_pool.submit(model_check, ctx, sc, mc) for mc in sc["mcs"]] for sc in scs]
         sf = [sc_pool.submit(lambda sc=sc, fs=fs: run_scenario(ctx, sc, [f.result() for f in fs], tlc_pool)) for sc, fs in zip(scs, mf)]
-        ctx.extra["deviation_witnesses"] = ["ASSUME WitnessNoBoundary WitnessReplaceAll WitnessRawTable WitnessIdeal (std scenario)"] + \
+        ctx.extra["deviation_witnesses"] = ["ASSUME WitnessNoBoundary WitnessReplaceAll WitnessRawTable WitnessIdeal (std scenario)",
+                                             "ASSUME WitnessStopRel WitnessStaleWd (std scenario, configuration relwd)"] + \
             ["TLC run: %s violates %s" % (f.result(), WITNESS[f.result()]) for f in wf]
         results = [f.result() for f in sf]
     for fs in mf:
@@ -502,15 +564,16 @@ def run(ctx, replay):
     for t in sorted(nontrivial)[:3]:
         ctx.sample(dict(via=t[0], input=t[1].decode("latin-1"), output=t[2].decode("latin-1")))
     ctx.assumptions += [
-        "registered directories are absolute, clean byte strings and short forms do not start with '/' (a short form that is itself a protected directory is outside the model)",
+        "registered directories are clean byte strings, absolute or relative; 'lies under' is the textual (segment prefix) relation, a relative directory covers relative paths only; short forms do not start with '/' (a short form that is itself a protected directory is outside the model)",
         "regexp mappings are of the shape ^?<literal>([^/]+/)? with a literal replacement",
-        "the process does not change its working directory after start; HOME and the working directory are set by the check",
+        "HOME and the working directory at start are set by the check; the process changes its working directory only through the Chdir events of the script, to existing directories without symbolic links (the worker records os.Getwd() after each and the trace specification compares)",
+        "relative file names reach the library through Safety/SafetyFiles only: the call sites of the worker are compiled without -trimpath, so their compile-time file names are absolute",
         "map iteration order cannot be forced: every query is repeated (32/64 times) and histories with removals/re-insertions permute slot order; the allowed set is over all orders, so the check is sound either way",
         "$HOME is treated as always protected while Lprivacypath is on (literal reading of the statement); exposure after Reset/Remove is reported under its own key",
     ]
     return ctx.finish(rule="per scenario (HOME/cwd/process mode): every transition of the exhaustive TLC graphs over "
-                           "Add/Remove/Reset of mappings, regexps and both privacy flags executed on the library with all "
-                           "input paths queried after each (Safety, SafetyFiles, call sites in 3 formats, each repeated), plus "
+                           "Add/Remove/Reset of mappings (absolute and relative directories), regexps, both privacy flags and "
+                           "os.Chdir executed on the library with all input paths (absolute and relative) queried after each (Safety, SafetyFiles, call sites in 3 formats, each repeated), plus "
                            "seeded random histories; every distinct observed result validated by TLC against Outputs(); "
                            "non-trivial = distinct (via, input, output) with output != input",
                       exhaustive=True)
